@@ -611,7 +611,7 @@ func (w *World) processRepoPackage(p *packages.Package, imp types.Importer) erro
 				if cl.Label == "" {
 					cl.Label = fmt.Sprintf("%d", nens)
 				}
-				cl.Pred = fmt.Sprintf("vcP_%s_ens_%s", base, sanitize(cl.Label))
+				cl.Pred = fmt.Sprintf("vcP_%s_ens_%s", base, strings.ReplaceAll(sanitize(cl.Label), ".", "_"))
 				nens++
 				fmt.Fprintf(&gen, "func %s(%s) bool { return %s }\n\n", cl.Pred, strings.Join(append(append([]string{}, params...), results...), ", "), expr)
 				if ant, ok := topAntecedent(cl.Expr); ok {
@@ -725,7 +725,7 @@ func (w *World) processRepoPackage(p *packages.Package, imp types.Importer) erro
 				ps = append(ps, nm(sig.Results().At(i), i, "result")+" "+types.TypeString(sig.Results().At(i).Type(), qual))
 			}
 		}
-		f.Pred = fmt.Sprintf("vcK_%s_%s", predBase(parts[0]), sanitize(f.ID))
+		f.Pred = fmt.Sprintf("vcK_%s_%s", predBase(parts[0]), strings.ReplaceAll(sanitize(f.ID), ".", "_"))
 		fmt.Fprintf(&gen, "func %s(%s) bool { return %s }\n\n", f.Pred, strings.Join(ps, ", "), rewriteImplies(f.Region))
 	}
 	// 3. overlay sources
